@@ -167,6 +167,9 @@ def dec_expected(content, size, fmt="main", kind=None, hexs=None):
         content = "*"      # is_empty() although bits are set (stale-count finding): the image is the empty form; reported by the oracle
     if kind and kind.startswith("td.") and " w=1 " in content and " C " in content:
         content = content.split(" C ")[0] + " C*"   # single value: the image does not say buffer or centroid
+    mm = re.search(r" n=(\d+) nr=0 empty=1", content) if kind and kind.startswith("den") else None
+    if mm and mm.group(1) != "0":
+        content = "*"      # nothing retained but n > 0: serialized as the EMPTY image (n-lost finding); reported by the oracle
     if eff != size:
         content = "*"      # the reader sees fewer levels than the sketch has: reported by the oracle, not compared here
     return "DEC %s | reenc=%d size=%d minpfx=%d fmt=%s" % (content, 1 if eff == size else 0, eff, eff, fmt)
